@@ -7,6 +7,7 @@ import (
 	"os"
 	"runtime/debug"
 	"strings"
+	"sync"
 	"testing"
 	"testing/synctest"
 	"time"
@@ -44,23 +45,31 @@ func vStart(u Upstream, wire []byte, timeout time.Duration) *vCall {
 	c.ctx, c.cancel = context.WithDeadline(context.Background(), c.deadline)
 	q := append([]byte(nil), wire...)
 	go func() {
+		var (
+			res      *refdns.Msg
+			nilnil   bool
+			panicked any
+			xerr     error
+		)
 		defer func() {
 			if r := recover(); r != nil {
-				c.panicked = r
-				c.done, c.doneAt = true, time.Now()
+				panicked = r
 			}
+			publish(func() {
+				c.err, c.nilnil, c.resp, c.panicked = xerr, nilnil, res, panicked
+				c.done, c.doneAt = true, time.Now()
+			})
 		}()
 		m, err := u.ExchangeContext(c.ctx, q)
-		c.err = err
-		c.nilnil = m == nil && err == nil
+		xerr = err
+		nilnil = m == nil && err == nil
 		if m != nil {
 			b := make([]byte, m.Len())
 			if n, perr := m.Pack(b, false, 0); perr == nil {
-				c.resp, _ = refdns.Decode(b[:n])
+				res, _ = refdns.Decode(b[:n])
 			}
 			dnsmsg.ReleaseMsg(m)
 		}
-		c.done, c.doneAt = true, time.Now()
 	}()
 	return c
 }
@@ -95,7 +104,6 @@ func bubble(t *testing.T, f func()) {
 		f()
 	})
 }
-func wait() { synctest.Wait() }
 
 func runExplore(t *testing.T, rep *report.R, bound int, scenario func(c *choice.Ctx)) choice.Stats {
 	sh, n := report.Shard()
@@ -103,7 +111,10 @@ func runExplore(t *testing.T, rep *report.R, bound int, scenario func(c *choice.
 	if rp := report.ReplayFile(); rp != nil {
 		var x struct{ Choices []int }
 		rp.Decode(&x)
-		c := choice.Replay(x.Choices, true, func(c *choice.Ctx) bool { bubble(t, func() { scenario(c) }); return true })
+		c := choice.Replay(x.Choices, true, func(c *choice.Ctx) bool {
+			bubble(t, func() { hmu.Lock(); defer hmu.Unlock(); scenario(c) })
+			return true
+		})
 		rep.Note("replayed: " + strings.Join(c.Trace(), " "))
 		return choice.Stats{Executions: 1}
 	}
@@ -113,8 +124,10 @@ func runExplore(t *testing.T, rep *report.R, bound int, scenario func(c *choice.
 	bubble(t, func() {
 		st = choice.Explore(opt, func(c *choice.Ctx) bool {
 			report.SetCurrent(c)
+			hmu.Lock()
+			defer hmu.Unlock()
 			scenario(c)
-			synctest.Wait()
+			wait()
 			report.FlushCurrent()
 			return rep.NViolations() < 50
 		})
@@ -131,3 +144,27 @@ func runExplore(t *testing.T, rep *report.R, bound int, scenario func(c *choice.
 var _ = env.Poison
 
 func b64dec(s string) ([]byte, error) { return base64.RawURLEncoding.DecodeString(s) }
+
+// hmu orders the harness goroutine and the goroutines it observes for the race detector: the harness holds it
+// whenever it runs and releases it only while it waits for quiescence or lets virtual time pass; goroutines
+// that publish results for the harness take it while doing so.
+var hmu sync.Mutex
+
+func wait() {
+	hmu.Unlock()
+	synctest.Wait()
+	hmu.Lock()
+}
+
+func hsleep(d time.Duration) {
+	hmu.Unlock()
+	time.Sleep(d)
+	hmu.Lock()
+}
+
+// publish runs f (which stores results read by the harness) under hmu.
+func publish(f func()) {
+	hmu.Lock()
+	f()
+	hmu.Unlock()
+}
